@@ -49,6 +49,38 @@ theorem visit_is_translated (t : FTask) (lvl : Level) (s e : Option PMsg) (ch : 
   · simp only [FTask.visit, completeNow_is_translated]
   · simp [FTask.visit, FTask.get]
 
+/-- **The dispatch of `FTask.add` is `Task.add`'s, with the translated tests.**  A message that is not an action message
+(`isActionTest`) and sits at `[1]` (`isRootMessageTest`) becomes the task's root and completes it; an action message goes to `_start`
+exactly when `isStartTest` holds of its status, to `_end` otherwise. -/
+theorem add_single_message_task (t : FTask) (m : PMsg) (h1 : ParseRule.isActionTest m.atype = false)
+    (h2 : ParseRule.isRootMessageTest m.level = true) :
+    t.add m = .ok { nodes := ([], .msg m) :: t.nodes, completed := [] :: t.completed } := by
+  have hat : m.atype = none := by
+    cases h : m.atype with
+    | none => rfl
+    | some x => simp [ParseRule.isActionTest, h] at h1
+  have hl : m.level = [1] := by simpa [ParseRule.isRootMessageTest] using h2
+  simp [FTask.add, hat, hl, pure, Except.pure]
+
+theorem add_action_message (t : FTask) (m : PMsg) (k : Nat) (rp : List Nat) (st : String)
+    (h1 : ParseRule.isActionTest m.atype = true) (hrev : m.level.reverse = k :: rp) (hs : m.status = some st) :
+    t.add m = (do
+      let action' ← (if ParseRule.isStartTest st then Op.setStart m else Op.setEnd m).apply ((t.get rp.reverse).getD emptyAct)
+      t.upward rp action') := by
+  obtain ⟨ty, hat⟩ : ∃ ty, m.atype = some ty := by
+    cases h : m.atype with
+    | none => simp [ParseRule.isActionTest, h] at h1
+    | some x => exact ⟨x, rfl⟩
+  unfold FTask.add
+  simp only [hat, hrev, hs]
+  by_cases hv : st = "started"
+  · subst hv
+    simp only [ParseRule.isStartTest, beq_self_eq_true, if_true]
+    rfl
+  · have hb : ParseRule.isStartTest st = false := by simpa [ParseRule.isStartTest] using hv
+    simp only [hb, Bool.false_eq_true, if_false]
+    rfl
+
 /-- the shapes the extractor recognised in the current source are the ones `Model/ParseFlat.lean` is written after -/
 theorem shapes :
     ParseRule.loopShape = "all-action-children-in-completed" ∧
